@@ -41,6 +41,9 @@ Proof. unfold close_slot. destruct (sact s) eqn:A; simpl; auto.
 Lemma close_slot_inactive loc cur s : sact s = false -> close_slot loc cur s = s.
 Proof. unfold close_slot. intros ->. reflexivity. Qed.
 
+Lemma app_assoc_reverse_cons {A} (pre : list A) x rest : (pre ++ [x]) ++ rest = pre ++ x :: rest.
+Proof. rewrite <- app_assoc. reflexivity. Qed.
+
 Section Live.
 Variable k : nat.
 Variable ncyc : Z.
@@ -379,5 +382,605 @@ Proof. induction fuel as [|f IH]; simpl; intros st st' Hc I L H; [discriminate|]
     assert (L1 : linv suf (emit ncyc b st)) by (eapply emit_linv; eauto).
     eapply IH; eauto.
   - inversion H; subst. auto. Qed.
+
+
+(* ---------- linv = (the four structural clauses) + J2 ---------- *)
+Definition dprops (suf : list cop) (st : state) : Prop :=
+  (forall a b sa sb, In a (bins st) -> In b (bins st) -> In sa (bslots a) -> In sb (bslots b) ->
+           sq sa = sq sb -> sstart sa = sstart sb -> bid a = bid b) /\
+  (forall b s, In b (bins st) -> In s (bslots b) ->
+           nth (sq s) (dl st) 0%Z = sstart s \/
+           exists a sa e, In a (bins st) /\ In sa (bslots a) /\ sq sa = sq s /\ send sa = Some e /\ (e + 1 = sstart s)%Z) /\
+  (forall q n, next_cycle q suf = Some n ->
+           (exists b s, In b (bins st) /\ In s (bslots b) /\ sq s = q /\ sact s = true) \/
+           nth q (dl st) 0%Z = n \/
+           (exists b s, In b (bins st) /\ In s (bslots b) /\ sq s = q /\ send s = Some (n - 1)%Z)) /\
+  (forall i, ~ reach (bins st) i i).
+
+Lemma linv_split suf st : linv suf st <-> dprops suf st /\ J2 (bins st).
+Proof. split.
+  - intros [D3 Dp D5 J1 J2']. repeat split; auto.
+  - intros [(D3 & Dp & D5 & J1) J2']. constructor; auto. Qed.
+
+Lemma dprops_bog suf st bs' : dprops suf st -> bog (bins st) bs' -> dprops suf (set_bins st bs').
+Proof. intros (D3 & Dp & D5 & J1) Hb. destruct (bog_facts _ _ Hb) as [F3 F4].
+  assert (Hsub : sub_edges (bins st) bs').
+  { intros i j (a' & t' & Ha' & Ht' & <- & <- & Hp').
+    destruct (F3 a' Ha') as (a & la & Ha & -> & _). destruct (F3 t' Ht') as (t & lt & Ht & -> & _).
+    exists a, t. repeat split; auto. }
+  repeat split; simpl.
+  - intros a' t' sa sb Ha' Ht' Hsa Hsb Eq Es.
+    destruct (F3 a' Ha') as (a & la & Ha & -> & _). destruct (F3 t' Ht') as (t & lt & Ht & -> & _).
+    apply (D3 a t sa sb); auto.
+  - intros x' s Hx' Hs. destruct (F3 x' Hx') as (x & lx & Hx & -> & _).
+    destruct (Dp x s Hx Hs) as [D|(a & sa & e & Ha & Hsa & R)]; auto.
+    right. destruct (F4 a Ha) as (la & Hla & _). exists (with_blocked a la), sa, e. auto.
+  - intros q n Hq. destruct (D5 q n Hq) as [(x & s & Hx & Hs & R)|[D|(x & s & Hx & Hs & R)]]; auto.
+    + left. destruct (F4 x Hx) as (lx & Hlx & _). exists (with_blocked x lx), s. auto.
+    + right; right. destruct (F4 x Hx) as (lx & Hlx & _). exists (with_blocked x lx), s. auto.
+  - apply (J1_transfer (bins st)); auto. Qed.
+
+(* ---------- adding edges that all point INTO one bin ---------- *)
+Lemma reach_into bs bs' sel (NewPred : nat -> Prop) :
+  (forall i j, E bs' i j -> E bs i j \/ (j = sel /\ NewPred i)) ->
+  forall i j, reach bs' i j ->
+    reach bs i j \/
+    exists p, NewPred p /\ (i = p \/ reach bs i p) /\ (j = sel \/ reach bs sel j).
+Proof. intros H i j R. induction R as [x y Hxy|x y z _ IH1 _ IH2].
+  - destruct (H x y Hxy) as [Ho|[-> Hn]]; [left; apply t_step; auto|].
+    right. exists x. auto.
+  - destruct IH1 as [L1|(p & Np & P1 & P2)], IH2 as [L2|(p' & Np' & P1' & P2')].
+    + left. eapply t_trans; eauto.
+    + right. exists p'. split; auto. split; auto. right.
+      destruct P1' as [->|P1']; auto. eapply t_trans; eauto.
+    + right. exists p. split; auto. split; auto. right.
+      destruct P2 as [->|P2]; auto. eapply t_trans; eauto.
+    + right. exists p. auto. Qed.
+
+Lemma J1_into bs bs' sel (NewPred : nat -> Prop) :
+  (forall i j, E bs' i j -> E bs i j \/ (j = sel /\ NewPred i)) ->
+  (forall p, NewPred p -> p <> sel /\ ~ reach bs sel p) ->
+  (forall i, ~ reach bs i i) -> forall i, ~ reach bs' i i.
+Proof. intros H K J1 i R. destruct (reach_into bs bs' sel NewPred H i i R) as [L|(p & Np & P1 & P2)].
+  - apply (J1 i L).
+  - destruct (K p Np) as [K1 K2]. destruct P2 as [->|P2].
+    + destruct P1 as [->|P1]; auto.
+    + apply K2. destruct P1 as [->|P1]; auto. eapply t_trans; eauto. Qed.
+
+
+(* ---------- what block_update does ---------- *)
+Definition trigger (sb A : bin) : bool := existsb (fun x => memb x (bqudits sb)) (bblocked A ++ bqudits A).
+
+Lemma Forall2_map_l {A B C} (R : B -> C -> Prop) (g : A -> B) : forall l r,
+  Forall2 R (map g l) r -> Forall2 (fun x y => R (g x) y) l r.
+Proof. induction l as [|x l IH]; simpl; intros r H; inversion H; subst; constructor; auto. Qed.
+
+Lemma Forall2_impl' {A B} (R R' : A -> B -> Prop) l r :
+  (forall x y, R x y -> R' x y) -> Forall2 R l r -> Forall2 R' l r.
+Proof. intros H. induction 1; constructor; auto. Qed.
+
+Lemma with_blocked_twice b l0 l : with_blocked (with_blocked b l0) l = with_blocked b l.
+Proof. reflexivity. Qed.
+
+Definition bspec (sel : nat) (sb : bin) (a : list (option nat)) (b b' : bin) : Prop :=
+  (exists l, b' = with_blocked b l /\ incl (bblocked b) l) /\
+  (In (Some (bid b)) a -> bid b <> sel -> trigger sb b = true ->
+   incl (bqudits sb ++ bblocked sb) (bblocked b')).
+
+Lemma block_fold_spec sel sb : forall a bs,
+  Forall2 (bspec sel sb a) bs
+    (fold_left (fun bs ab =>
+         match ab with
+         | None => bs
+         | Some a => if Nat.eqb a sel then bs
+                     else map (fun A => if Nat.eqb (bid A) a then block_one sb A else A) bs
+         end) a bs).
+Proof. induction a as [|x a IH]; simpl; intros bs.
+  - induction bs; constructor; auto. split; [|intros []].
+    exists (bblocked a). split; [symmetry; apply with_blocked_self| apply incl_refl].
+  - destruct x as [id|].
+    2:{ eapply Forall2_impl'; [|apply IH]. intros b b' [P1 P2]. split; auto.
+        intros [Hd|Hin]; [discriminate| auto]. }
+    destruct (Nat.eqb id sel) eqn:Es.
+    + apply Nat.eqb_eq in Es. subst id.
+      eapply Forall2_impl'; [|apply IH]. intros b b' [P1 P2]. split; auto.
+      intros [Hd|Hin] Hn; [inversion Hd; congruence| auto].
+    + specialize (IH (map (fun A => if Nat.eqb (bid A) id then block_one sb A else A) bs)).
+      apply Forall2_map_l in IH. eapply Forall2_impl'; [|exact IH].
+      intros b b' [P1 P2]. simpl in *. destruct (Nat.eqb (bid b) id) eqn:Eb.
+      * (* this bin is updated now *)
+        unfold block_one in *. fold (trigger sb b) in *.
+        destruct (trigger sb b) eqn:T.
+        -- destruct P1 as (l & -> & Hl). simpl in Hl. split.
+           ++ exists l. split; [reflexivity|]. intros q Hq. apply Hl. apply union_In. auto.
+           ++ intros _ _ _ q Hq. simpl. apply Hl. apply union_In. auto.
+        -- split; auto. intros _ _ Ht. congruence.
+      * split; auto. intros [Hd|Hin]; auto. inversion Hd. subst id. rewrite Nat.eqb_refl in Eb. discriminate. Qed.
+
+Lemma block_update_spec sel st st' :
+  block_update sel st = inl st' ->
+  exists sb bs', getb sel (bins st) = Some sb /\ st' = set_bins st bs' /\
+                 Forall2 (bspec sel sb (act st)) (bins st) bs'.
+Proof. unfold block_update. destruct (getb sel (bins st)) as [sb|] eqn:G; [|discriminate].
+  intros H. inversion H; subst. exists sb. eexists. split; auto. split; [reflexivity|]. apply block_fold_spec. Qed.
+
+Lemma bspec_bog sel sb a bs bs' : Forall2 (bspec sel sb a) bs bs' -> bog bs bs'.
+Proof. induction 1 as [|x y l l' [P1 _] H IH]; constructor; auto. Qed.
+
+Lemma Forall2_In_r {A B} (R : A -> B -> Prop) l r y : Forall2 R l r -> In y r -> exists x, In x l /\ R x y.
+Proof. intros H. induction H as [|x0 y0 l0 r0 Hxy H IH]; intros Hy; [destruct Hy|].
+  destruct Hy as [<-|Hy]; [exists x0; split; [left; reflexivity| exact Hxy]|].
+  destruct (IH Hy) as (x1 & Hx1 & Rx). exists x1. split; [right; exact Hx1| exact Rx]. Qed.
+
+
+Lemma reach_ends bs i j : reach bs i j ->
+  (exists a0, In a0 bs /\ bid a0 = i /\ bslots a0 <> []) /\
+  (exists t q, In t bs /\ bid t = j /\ In q (bqudits t)).
+Proof. induction 1 as [x y (a & t & Ha & Ht & Ia & It & Hp)|x y z _ [IH1 _] _ [_ IH2]]; auto.
+  apply precb_spec in Hp as (sa & sb & e & Hsa & Hsb & _). split.
+  - exists a. repeat split; auto. intros E0. rewrite E0 in Hsa. destruct Hsa.
+  - exists t, (sq sb). repeat split; auto. apply in_map; auto. Qed.
+
+Lemma trigger_true sb A q :
+  In q (bblocked A ++ bqudits A) -> In q (bqudits sb) -> trigger sb A = true.
+Proof. intros H1 H2. unfold trigger. apply existsb_exists. exists q. split; auto. apply memb_In; auto. Qed.
+
+(* J2 is re-established by block_update after edges INTO sel have been added *)
+Lemma J2_after_block bs bs1 bs2 sel S' a (NewPred : nat -> Prop) :
+  NoDup (ids bs) -> NoDup (ids bs1) ->
+  (forall i, ~ reach bs i i) -> J2 bs ->
+  (forall i j, E bs1 i j -> E bs i j \/ (j = sel /\ NewPred i)) ->
+  (forall p, NewPred p -> p <> sel /\ ~ reach bs sel p) ->
+  In S' bs1 -> bid S' = sel ->
+  (forall x1, In x1 bs1 -> bid x1 <> sel -> In x1 bs) ->
+  (forall S, In S bs -> bid S = sel ->
+     incl (bqudits S) (bqudits S') /\ incl (bblocked S) (bblocked S') /\ (bslots S = [] \/ any_active S = true)) ->
+  (forall p, NewPred p -> exists P q, In P bs /\ bid P = p /\ In q (bqudits P) /\ In q (bqudits S')) ->
+  Forall2 (bspec sel S' a) bs1 bs2 ->
+  (forall x1, In x1 bs1 -> any_active x1 = true -> bid x1 <> sel -> In (Some (bid x1)) a) ->
+  J2 bs2.
+Proof. intros Hnd0 Hnd1 J1 J2' H1 K HS' IS' Hcor Hsel NP Hspec HactA.
+  assert (Hsub : sub_edges bs1 bs2).
+  { intros i j (a' & t' & Ha' & Ht' & <- & <- & Hp').
+    destruct (Forall2_In_r _ _ _ _ Hspec Ha') as (a1 & Ha1 & [(la & -> & _) _]).
+    destruct (Forall2_In_r _ _ _ _ Hspec Ht') as (t1 & Ht1 & [(lt & -> & _) _]).
+    exists a1, t1. repeat split; auto. }
+  intros A2 HA2 Act j C2 R HC2 EC2.
+  destruct (Forall2_In_r _ _ _ _ Hspec HA2) as (A1 & HA1 & [(la & -> & Hla) PA]).
+  destruct (Forall2_In_r _ _ _ _ Hspec HC2) as (C1 & HC1 & [(lc & -> & _) _]).
+  change (bid (with_blocked A1 la)) with (bid A1) in *.
+  change (bid (with_blocked C1 lc)) with (bid C1) in *.
+  change (any_active (with_blocked A1 la)) with (any_active A1) in Act.
+  change (bqudits (with_blocked C1 lc)) with (bqudits C1).
+  change (bqudits (with_blocked A1 la)) with (bqudits A1).
+  change (bblocked (with_blocked A1 la)) with la.
+  change (bblocked (with_blocked A1 la)) with la in PA.
+  assert (R1 : reach bs1 (bid A1) j) by (eapply reach_mono; eauto).
+  assert (Huse : forall S, In S bs -> bid S = sel -> bslots S <> [] ->
+            forall C, reach bs sel (bid C) -> In C bs -> incl (bqudits C) (bblocked S' ++ bqudits S')).
+  { intros S HS IS NS C RC HC. destruct (Hsel S HS IS) as (Q1 & Q2 & [Q3|Q3]); [contradiction|].
+    intros q Hq. assert (In q (bblocked S ++ bqudits S)).
+    { apply (J2' S HS Q3 (bid C) C); auto. rewrite IS. exact RC. }
+    apply in_app_or in H as [H|H]; apply in_or_app; auto. }
+  destruct (Nat.eq_dec (bid A1) sel) as [Ea|Na].
+  - (* the selected bin itself *)
+    assert (A1 = S') by (apply (nodup_ids_eq bs1 A1 S' Hnd1 HA1 HS'); congruence). subst A1.
+    destruct (reach_into bs bs1 sel NewPred H1 _ _ R1) as [L|(p & Np & P1 & P2)].
+    + rewrite Ea in L. destruct (reach_ends _ _ _ L) as [(S & HS & IS & NS) _].
+      assert (Nj : j <> sel) by (intros ->; apply (J1 sel L)).
+      assert (HC : In C1 bs) by (apply Hcor; auto; congruence).
+      intros q Hq. assert (In q (bblocked S' ++ bqudits S')).
+      { apply (Huse S HS IS NS C1); auto. rewrite EC2. exact L. }
+      apply in_app_or in H as [H|H]; apply in_or_app; auto.
+    + exfalso. destruct (K p Np) as [K1 K2]. rewrite Ea in P1. destruct P1 as [->|P1]; auto.
+  - assert (HA : In A1 bs) by (apply Hcor; auto).
+    assert (Hin : In (Some (bid A1)) a) by (apply HactA; auto).
+    destruct (reach_into bs bs1 sel NewPred H1 _ _ R1) as [L|(p & Np & P1 & P2)].
+    + destruct (Nat.eq_dec j sel) as [->|Nj].
+      * assert (C1 = S') by (apply (nodup_ids_eq bs1 C1 S' Hnd1 HC1 HS'); congruence). subst C1.
+        destruct (reach_ends _ _ _ L) as [_ (S & q0 & HS & IS & Hq0)].
+        destruct (Hsel S HS IS) as (Q1 & _ & _).
+        assert (Hq0' : In q0 (bblocked A1 ++ bqudits A1)) by (apply (J2' A1 HA Act sel S); auto).
+        assert (T : trigger S' A1 = true) by (eapply trigger_true; eauto).
+        intros q Hq. apply in_or_app. left. apply (PA Hin Na T). apply in_or_app. auto.
+      * assert (HC : In C1 bs) by (apply Hcor; auto; congruence).
+        intros q Hq. assert (In q (bblocked A1 ++ bqudits A1)) by (apply (J2' A1 HA Act j C1); auto).
+        apply in_app_or in H as [H|H]; apply in_or_app; auto.
+    + destruct (NP p Np) as (P & q & HP & IP & Hq1 & Hq2).
+      assert (T : trigger S' A1 = true).
+      { apply (trigger_true S' A1 q); auto. destruct P1 as [E1|P1].
+        - assert (A1 = P) by (apply (nodup_ids_eq bs A1 P Hnd0 HA HP); congruence). subst A1. apply in_or_app; auto.
+        - apply (J2' A1 HA Act p P); auto. }
+      pose proof (PA Hin Na T) as Hadd.
+      destruct P2 as [->|P2].
+      * assert (C1 = S') by (apply (nodup_ids_eq bs1 C1 S' Hnd1 HC1 HS'); congruence). subst C1.
+        intros q' Hq'. apply in_or_app. left. apply Hadd. apply in_or_app. auto.
+      * destruct (reach_ends _ _ _ P2) as [(S & HS & IS & NS) _].
+        assert (Nj : j <> sel) by (intros ->; apply (J1 sel P2)).
+        assert (HC : In C1 bs) by (apply Hcor; auto; congruence).
+        intros q' Hq'. assert (In q' (bblocked S' ++ bqudits S')).
+        { apply (Huse S HS IS NS C1); auto. rewrite EC2. exact P2. }
+        apply in_or_app. left. apply Hadd. apply in_app_or in H as [H|H]; apply in_or_app; auto. Qed.
+
+
+Lemma nth_some_In {A} (l : list (option A)) q x : nth q l None = Some x -> In (Some x) l.
+Proof. intros H. destruct (Nat.lt_ge_cases q (length l)) as [Hl|Hl].
+  - rewrite <- H. apply nth_In. exact Hl. - rewrite nth_overflow in H; [discriminate| exact Hl]. Qed.
+
+(* ---------- a gate: add the operation to the selected bin, then block_update ---------- *)
+Lemma add_block_linv pre cur o rest st2 sel sb a' st4 :
+  c = pre ++ (cur, o) :: rest ->
+  inv pre st2 -> linv ((cur, o) :: rest) st2 ->
+  getb sel (bins st2) = Some sb ->
+  (forall q, In q (oloc o) -> In q (bqudits sb) -> is_active sb q = true) ->
+  (forall q, In q (oloc o) -> In q (bblocked sb) -> is_active sb q = true) ->
+  (bslots sb = [] \/ any_active sb = true) ->
+  set_active sel (oloc o) (act st2) = inl a' ->
+  inv (pre ++ [(cur, o)])
+      (mkSt (putb (add_op cur o sb) (bins st2)) a' (dl st2) (pend st2) (nclosed st2) (out st2) (nextid st2)) ->
+  block_update sel
+      (mkSt (putb (add_op cur o sb) (bins st2)) a' (dl st2) (pend st2) (nclosed st2) (out st2) (nextid st2)) = inl st4 ->
+  linv rest st4.
+Proof. intros Hc I L G C1 C0 Cact SA I3 BU.
+  destruct (ctx_facts c Hord pre cur o rest Hc) as [Hp Hs].
+  pose proof (fun b s => slot_start_lt pre st2 (oloc o) cur b s I Hp) as W.
+  pose proof (fun b s => active_end_none pre st2 b s I) as AE.
+  pose proof I as I'. destruct I' as [i_nd0 _ _ i_static0 i_dyn0 _ _ _ _ _ _ _].
+  destruct (getb_split _ _ _ i_nd0 G) as (l1 & l2 & Eb & N1 & N2).
+  apply getb_In in G as [Gin Gid]. subst sel.
+  destruct (add_slots_spec cur (oloc o) (bslots sb)) as (new & EN & NW1 & NW2 & NW3).
+  destruct (set_active_spec _ _ _ _ SA) as [SA1 SA2].
+  set (S' := add_op cur o sb) in *.
+  assert (Hsl : bslots S' = bslots sb ++ new) by (unfold S'; simpl; exact EN).
+  assert (Hid : bid S' = bid sb) by reflexivity.
+  assert (Hbl : bblocked S' = bblocked sb) by reflexivity.
+  assert (Hbins : putb S' (bins st2) = l1 ++ S' :: l2) by (rewrite Eb; apply putb_split; auto).
+  rewrite Hbins in *.
+  pose (bs := bins st2). pose (bs1 := l1 ++ S' :: l2).
+  assert (Hnd1 : NoDup (ids bs1)).
+  { unfold bs1, bs in *. rewrite Eb in i_nd0. unfold ids in *. rewrite map_app in *. simpl in *. exact i_nd0. }
+  (* correspondence between the tables *)
+  assert (Hold : forall x1, In x1 bs1 -> (x1 = S') \/ (In x1 bs /\ bid x1 <> bid sb)).
+  { intros x Hx. unfold bs1 in Hx. apply in_mid in Hx as [Hx|[Hx|Hx]]; auto; right; split.
+    - unfold bs. rewrite Eb. apply in_or_app; auto.
+    - intros E0. apply N1. rewrite <- E0. apply in_map; auto.
+    - unfold bs. rewrite Eb. apply in_or_app; right; right; auto.
+    - intros E0. apply N2. rewrite <- E0. apply in_map; auto. }
+  assert (Hfw : forall x s, In x bs -> In s (bslots x) -> exists x1, In x1 bs1 /\ bid x1 = bid x /\ In s (bslots x1)).
+  { intros x s Hx Hs0. unfold bs in Hx. rewrite Eb in Hx. apply in_mid in Hx as [Hx|[Hx|Hx]].
+    - exists x. repeat split; auto. unfold bs1. apply in_or_app; auto.
+    - subst x. exists S'. repeat split; auto; [unfold bs1; apply in_or_app; right; left; auto|].
+      rewrite Hsl. apply in_or_app; auto.
+    - exists x. repeat split; auto. unfold bs1. apply in_or_app; right; right; auto. }
+  (* slots of the new table: old slots of the old version, or new slots of S' *)
+  assert (Hsl1 : forall x1 s, In x1 bs1 -> In s (bslots x1) ->
+     (exists x, In x bs /\ bid x = bid x1 /\ In s (bslots x)) \/ (x1 = S' /\ In s new)).
+  { intros x1 s Hx Hs0. destruct (Hold x1 Hx) as [->|[Hx' _]].
+    - rewrite Hsl in Hs0. apply in_app_or in Hs0 as [Hs0|Hs0]; auto. left. exists sb. auto.
+    - left. exists x1. auto. }
+  (* other bins have no active slot on the location *)
+  assert (Hoth : forall x s, In x bs -> bid x <> bid sb -> In s (bslots x) -> sact s = true -> ~ In (sq s) (oloc o)).
+  { intros x s Hx Hn Hs0 As Hq. destruct (i_dyn0 x Hx) as [D1 _].
+    assert (Aq : is_active x (sq s) = true) by (apply is_active_slot; eauto).
+    specialize (D1 _ Aq). destruct (SA1 _ Hq) as [E0|E0]; rewrite E0 in D1; [discriminate| inversion D1; congruence]. }
+  destruct L as [D3 Dp D5 J1 J2'].
+  set (NewPred := fun p => exists P sa e, In P bs /\ bid P = p /\ In sa (bslots P) /\ send sa = Some e /\ In (sq sa) (map sq new)).
+  assert (H1 : forall i j, E bs1 i j -> E bs i j \/ (j = bid sb /\ NewPred i)).
+  { intros i j (a1 & t1 & Ha1 & Ht1 & <- & <- & Hpr). apply precb_spec in Hpr as (sa & st & e & Hsa & Hst & Eq & Ee & Hlt).
+    destruct (Hsl1 a1 sa Ha1 Hsa) as [(a0 & Ha0 & Ia0 & Hsa0)|[-> Hnew]].
+    2:{ destruct (NW1 sa Hnew) as (_ & En & _). congruence. }
+    destruct (Hsl1 t1 st Ht1 Hst) as [(t0 & Ht0 & It0 & Hst0)|[-> Hnew]].
+    - left. exists a0, t0. repeat split; auto. apply precb_spec. exists sa, st, e. auto.
+    - right. split; auto. exists a0, sa, e. repeat split; auto. rewrite Eq. apply in_map; auto. }
+  assert (K : forall p, NewPred p -> p <> bid sb /\ ~ reach bs (bid sb) p).
+  { intros p (P & sa & e & HP & IP & Hsa & Ee & Hq). apply in_map_iff in Hq as (sn & Eqn & Hsn).
+    destruct (NW1 sn Hsn) as (_ & _ & _ & Hloc & Hnq). rewrite Eqn in *.
+    assert (Hqp : In (sq sa) (bqudits P)) by (apply in_map; auto).
+    split.
+    - intros ->. assert (P = sb) by (apply (nodup_ids_eq (bins st2) P sb i_nd0 HP Gin IP)). subst P. auto.
+    - intros R. destruct (reach_ends _ _ _ R) as [(S0 & HS0 & IS0 & NS0) _].
+      assert (S0 = sb) by (apply (nodup_ids_eq (bins st2) S0 sb i_nd0 HS0 Gin IS0)). subst S0.
+      destruct Cact as [Cact|Cact]; [contradiction|].
+      assert (In (sq sa) (bblocked sb ++ bqudits sb)) by (apply (J2' sb Gin Cact p P); auto).
+      apply in_app_or in H as [H|H]; auto.
+      pose proof (is_active_In _ _ (C0 _ Hloc H)) as Hin'. auto. }
+  (* the structural clauses after the addition *)
+  assert (DP3 : dprops rest (mkSt bs1 a' (dl st2) (pend st2) (nclosed st2) (out st2) (nextid st2))).
+  { unfold dprops. simpl. split; [|split; [|split]].
+    - intros x1 y1 sx sy Hx1 Hy1 Hsx Hsy Eq Es.
+      destruct (Hsl1 x1 sx Hx1 Hsx) as [(x0 & Hx0 & Ix0 & Hsx0)|[-> Hnx]];
+      destruct (Hsl1 y1 sy Hy1 Hsy) as [(y0 & Hy0 & Iy0 & Hsy0)|[-> Hny]].
+      + rewrite <- Ix0, <- Iy0. apply (D3 x0 y0 sx sy); auto.
+      + exfalso. destruct (NW1 sy Hny) as (Sy & _ & _ & Ly & _).
+        assert (sstart sx < cur)%Z by (apply (W x0 sx); auto; rewrite Eq; auto). lia.
+      + exfalso. destruct (NW1 sx Hnx) as (Sx & _ & _ & Lx & _).
+        assert (sstart sy < cur)%Z by (apply (W y0 sy); auto; rewrite <- Eq; auto). lia.
+      + reflexivity.
+    - intros x1 s Hx1 Hs1. destruct (Hsl1 x1 s Hx1 Hs1) as [(x0 & Hx0 & Ix0 & Hs0)|[-> Hn]].
+      + destruct (Dp x0 s Hx0 Hs0) as [D|(a0 & sa & e & Ha0 & Hsa & R)]; auto.
+        right. destruct (Hfw a0 sa Ha0 Hsa) as (a1 & Ha1 & _ & Hsa1). exists a1, sa, e. auto.
+      + destruct (NW1 s Hn) as (Ss & _ & _ & Ls & Nq).
+        assert (NC : next_cycle (sq s) ((cur, o) :: rest) = Some cur).
+        { simpl. unfold touchesb. apply memb_In in Ls. rewrite Ls. reflexivity. }
+        destruct (D5 _ _ NC) as [(x0 & s0 & Hx0 & Hs0 & Eq & A)|[D|(x0 & s0 & Hx0 & Hs0 & Eq & Ee)]].
+        * exfalso. destruct (Nat.eq_dec (bid x0) (bid sb)) as [E0|N0].
+          -- assert (x0 = sb) by (apply (nodup_ids_eq (bins st2) x0 sb i_nd0 Hx0 Gin E0)). subst x0. apply Nq. rewrite <- Eq. apply in_map; auto.
+          -- apply (Hoth x0 s0 Hx0 N0 Hs0 A). rewrite Eq. exact Ls.
+        * left. rewrite Ss. exact D.
+        * right. destruct (Hfw x0 s0 Hx0 Hs0) as (x1 & Hx1' & _ & Hs1'). exists x1, s0, (cur - 1)%Z.
+          repeat split; auto. rewrite Ss. lia.
+    - intros q n Hq. destruct (in_dec Nat.eq_dec q (oloc o)) as [Lq|Nq].
+      + left. specialize (NW3 q Lq). rewrite map_app in NW3. apply in_app_or in NW3 as [Hq0|Hq0].
+        * assert (Aq : is_active sb q = true) by (apply C1; auto).
+          apply is_active_slot in Aq as (s & Hs0 & Eq & As). exists S', s. repeat split; auto.
+          -- unfold bs1. apply in_or_app; right; left; auto.
+          -- rewrite Hsl. apply in_or_app; auto.
+        * apply in_map_iff in Hq0 as (s & Eq & Hs0). exists S', s. repeat split; auto.
+          -- unfold bs1. apply in_or_app; right; left; auto.
+          -- rewrite Hsl. apply in_or_app; auto.
+          -- apply NW1; auto.
+      + assert (NC : next_cycle q ((cur, o) :: rest) = Some n).
+        { simpl. unfold touchesb. apply memb_false in Nq. rewrite Nq. exact Hq. }
+        destruct (D5 _ _ NC) as [(x0 & s0 & Hx0 & Hs0 & Eq & A)|[D|(x0 & s0 & Hx0 & Hs0 & Eq & Ee)]]; auto.
+        * left. destruct (Hfw x0 s0 Hx0 Hs0) as (x1 & Hx1 & _ & Hs1). exists x1, s0. auto.
+        * right; right. destruct (Hfw x0 s0 Hx0 Hs0) as (x1 & Hx1 & _ & Hs1). exists x1, s0. auto.
+    - apply (J1_into bs bs1 (bid sb) NewPred); auto. }
+  (* block_update *)
+  destruct (block_update_spec _ _ _ BU) as (sb2 & bs2 & G2 & -> & Hspec). simpl in G2, Hspec.
+  assert (sb2 = S').
+  { apply getb_In in G2 as [G2a G2b]. apply (nodup_ids_eq bs1 sb2 S' Hnd1); auto.
+    unfold bs1. apply in_or_app; right; left; auto. }
+  subst sb2.
+  apply linv_split. split.
+  - apply (dprops_bog rest _ bs2 DP3). simpl. eapply bspec_bog; eauto.
+  - simpl. apply (J2_after_block bs bs1 bs2 (bid sb) S' a' NewPred); auto.
+    + unfold bs1. apply in_or_app; right; left; auto.
+    + intros x1 Hx1 Hn. destruct (Hold x1 Hx1) as [->|[Hx _]]; auto. congruence.
+    + intros S HS IS. assert (S = sb) by (apply (nodup_ids_eq (bins st2) S sb i_nd0 HS Gin IS)). subst S.
+      split; [|split; auto].
+      * unfold bqudits. rewrite Hsl, map_app. apply incl_appl. apply incl_refl.
+      * rewrite Hbl. apply incl_refl.
+    + intros p (P & sa & e & HP & IP & Hsa & Ee & Hq). exists P, (sq sa). repeat split; auto.
+      * apply in_map; auto.
+      * unfold bqudits. rewrite Hsl, map_app. apply in_or_app; auto.
+    + intros x1 Hx1 Act Hn. destruct I3 as [_ _ _ _ i_dyn3 _ _ _ _ _ _ _].
+      simpl in i_dyn3. destruct (i_dyn3 x1 Hx1) as [D1 _]. simpl in D1.
+      apply any_active_ex in Act as [q Aq]. eapply nth_some_In. apply (D1 q Aq). Qed.
+
+
+(* ---------- a fresh empty bin ---------- *)
+Lemma new_bin_linv pre suf st :
+  inv pre st -> linv suf st ->
+  linv suf (mkSt (bins st ++ [mkBin (nextid st) [] [] [] false]) (act st) (dl st) (pend st)
+                 (nclosed st) (out st) (S (nextid st))).
+Proof. intros I L. destruct L as [D3 Dp D5 J1 J2']. destruct I as [_ i_lt0 _ _ _ _ _ _ _ _ _ _].
+  set (N0 := mkBin (nextid st) [] [] [] false).
+  assert (Hsl : forall x s, In x (bins st ++ [N0]) -> In s (bslots x) -> In x (bins st)).
+  { intros x s Hx Hs. apply in_app_or in Hx as [Hx|[<-|[]]]; auto. destruct Hs. }
+  assert (Hsub : sub_edges (bins st) (bins st ++ [N0])).
+  { intros i j (a & t & Ha & Ht & <- & <- & Hp'). pose proof Hp' as Hp''.
+    apply precb_spec in Hp' as (sa & sb & e & Hsa & Hsb & _).
+    exists a, t. repeat split; eauto. }
+  constructor; simpl.
+  - intros a t sa sb Ha Ht Hsa Hsb. apply D3; eauto.
+  - intros x s Hx Hs. destruct (Dp x s (Hsl x s Hx Hs) Hs) as [D|(a & sa & e & Ha & R)]; auto.
+    right. exists a, sa, e. split; auto. apply in_or_app; auto.
+  - intros q n Hq. destruct (D5 q n Hq) as [(x & s & Hx & R)|[D|(x & s & Hx & R)]]; auto.
+    + left. exists x, s. split; auto. apply in_or_app; auto.
+    + right; right. exists x, s. split; auto. apply in_or_app; auto.
+  - apply (J1_transfer (bins st)); auto.
+  - intros A HA Act j C R HC EC. apply in_app_or in HA as [HA|[<-|[]]]; [|discriminate].
+    assert (R0 : reach (bins st) (bid A) j) by (eapply reach_mono; eauto).
+    apply in_app_or in HC as [HC|[<-|[]]]; [apply (J2' A HA Act j C); auto|].
+    exfalso. destruct (reach_ends _ _ _ R0) as [_ (t & q & Ht & It & _)]. simpl in EC.
+    specialize (i_lt0 t Ht). lia. Qed.
+
+(* ---------- a barrier: the BarrierBin, then block_update (the repair) ---------- *)
+Lemma barrier_block_linv pre cur o rest st1 st4 :
+  c = pre ++ (cur, o) :: rest ->
+  inv pre st1 -> linv ((cur, o) :: rest) st1 ->
+  (forall q, In q (oloc o) -> nth q (act st1) None = None) ->
+  inv (pre ++ [(cur, o)])
+      (mkSt (bins st1 ++ [barrier_bin (nextid st1) cur o rest]) (act st1) (dl st1)
+            (pend st1 ++ [nextid st1]) (nclosed st1) (out st1) (S (nextid st1))) ->
+  block_update (nextid st1)
+      (mkSt (bins st1 ++ [barrier_bin (nextid st1) cur o rest]) (act st1) (dl st1)
+            (pend st1 ++ [nextid st1]) (nclosed st1) (out st1) (S (nextid st1))) = inl st4 ->
+  linv rest st4.
+Proof. intros Hc I L Hnone I2 BU.
+  destruct (ctx_facts c Hord pre cur o rest Hc) as [Hp Hs].
+  pose proof (fun b s => slot_start_lt pre st1 (oloc o) cur b s I Hp) as W.
+  pose proof I as I'. destruct I' as [i_nd0 i_lt0 _ _ i_dyn0 _ _ _ _ _ _ _].
+  set (N := barrier_bin (nextid st1) cur o rest) in *.
+  pose (bs := bins st1). pose (bs1 := bins st1 ++ [N]).
+  assert (HNs : forall s, In s (bslots N) ->
+     In (sq s) (oloc o) /\ sstart s = cur /\ sact s = false /\
+     send s = match next_cycle (sq s) rest with Some cn => Some (cn - 1)%Z | None => None end).
+  { intros s Hs0. unfold N, barrier_bin in Hs0. simpl in Hs0. apply in_map_iff in Hs0 as (q & <- & Hq). simpl. auto. }
+  assert (HNq : forall q, In q (oloc o) -> exists s, In s (bslots N) /\ sq s = q).
+  { intros q Hq. eexists. split; [unfold N, barrier_bin; simpl; apply in_map; exact Hq| reflexivity]. }
+  assert (Hnd1 : NoDup (ids bs1)).
+  { destruct I2 as [i_nd2 _ _ _ _ _ _ _ _ _ _ _]. exact i_nd2. }
+  assert (Hnext : forall q cn, In q (oloc o) -> next_cycle q rest = Some cn -> (cur < cn)%Z).
+  { intros q cn Hq Hn. pose proof (next_cycle_spec q rest) as NC. rewrite Hn in NC.
+    destruct NC as (r1 & y & r2 & Er & _ & Ty & Ey). rewrite <- Ey.
+    apply (ctx_suf c pre (cur, o) rest q y Hord Hc); auto.
+    - rewrite Er. apply in_or_app; right; left; auto. - apply touch_loc; auto. }
+  destruct L as [D3 Dp D5 J1 J2'].
+  set (NewPred := fun p => exists P sa e, In P bs /\ bid P = p /\ In sa (bslots P) /\ send sa = Some e /\ In (sq sa) (oloc o)).
+  assert (H1 : forall i j, E bs1 i j -> E bs i j \/ (j = nextid st1 /\ NewPred i)).
+  { intros i j (a1 & t1 & Ha1 & Ht1 & <- & <- & Hpr). apply precb_spec in Hpr as (sa & st & e & Hsa & Hst & Eq & Ee & Hlt).
+    assert (Ha0 : In a1 bs).
+    { apply in_app_or in Ha1 as [Ha1|[<-|[]]]; auto. exfalso.
+      destruct (HNs sa Hsa) as (Lq & _ & _ & En). rewrite Ee in En.
+      destruct (next_cycle (sq sa) rest) as [cn|] eqn:Nc; [|discriminate]. inversion En; subst e.
+      pose proof (Hnext _ _ Lq Nc).
+      apply in_app_or in Ht1 as [Ht1|[<-|[]]].
+      - assert (sstart st < cur)%Z by (apply (W t1 st); auto; rewrite <- Eq; auto). lia.
+      - destruct (HNs st Hst) as (_ & Sst & _). lia. }
+    apply in_app_or in Ht1 as [Ht1|[<-|[]]].
+    - left. exists a1, t1. repeat split; auto. apply precb_spec. exists sa, st, e. auto.
+    - right. split; auto. exists a1, sa, e. repeat split; auto. rewrite Eq. apply HNs; auto. }
+  assert (K : forall p, NewPred p -> p <> nextid st1 /\ ~ reach bs (nextid st1) p).
+  { intros p (P & sa & e & HP & IP & _). split.
+    - specialize (i_lt0 P HP). lia.
+    - intros R. destruct (reach_ends _ _ _ R) as [(S0 & HS0 & IS0 & _) _]. specialize (i_lt0 S0 HS0). lia. }
+  assert (DP3 : dprops rest (mkSt bs1 (act st1) (dl st1) (pend st1 ++ [nextid st1]) (nclosed st1) (out st1) (S (nextid st1)))).
+  { unfold dprops. simpl. split; [|split; [|split]].
+    - intros x1 y1 sx sy Hx1 Hy1 Hsx Hsy Eq Es.
+      apply in_app_or in Hx1 as [Hx1|[<-|[]]]; apply in_app_or in Hy1 as [Hy1|[<-|[]]]; auto.
+      + apply (D3 x1 y1 sx sy); auto.
+      + exfalso. destruct (HNs sy Hsy) as (Ly & Sy & _).
+        assert (sstart sx < cur)%Z by (apply (W x1 sx); auto; rewrite Eq; auto). lia.
+      + exfalso. destruct (HNs sx Hsx) as (Lx & Sx & _).
+        assert (sstart sy < cur)%Z by (apply (W y1 sy); auto; rewrite <- Eq; auto). lia.
+    - intros x1 s Hx1 Hs1. apply in_app_or in Hx1 as [Hx1|[<-|[]]].
+      + destruct (Dp x1 s Hx1 Hs1) as [D|(a0 & sa & e & Ha0 & R)]; auto.
+        right. exists a0, sa, e. split; auto. apply in_or_app; auto.
+      + destruct (HNs s Hs1) as (Ls & Ss & _).
+        assert (NC : next_cycle (sq s) ((cur, o) :: rest) = Some cur).
+        { simpl. unfold touchesb. apply memb_In in Ls. rewrite Ls. reflexivity. }
+        destruct (D5 _ _ NC) as [(x0 & s0 & Hx0 & Hs0 & Eq & A)|[D|(x0 & s0 & Hx0 & Hs0 & Eq & Ee)]].
+        * exfalso. destruct (i_dyn0 x0 Hx0) as [D1 _].
+          assert (Aq : is_active x0 (sq s0) = true) by (apply is_active_slot; eauto).
+          specialize (D1 _ Aq). rewrite Eq, (Hnone _ Ls) in D1. discriminate.
+        * left. rewrite Ss. exact D.
+        * right. exists x0, s0, (cur - 1)%Z. repeat split; auto; [apply in_or_app; auto| rewrite Ss; lia].
+    - intros q n Hq. destruct (in_dec Nat.eq_dec q (oloc o)) as [Lq|Nq].
+      + right; right. destruct (HNq q Lq) as (s & Hs0 & Eq). exists N, s. repeat split; auto.
+        * apply in_or_app; right; left; auto.
+        * destruct (HNs s Hs0) as (_ & _ & _ & En). rewrite En, Eq, Hq. reflexivity.
+      + assert (NC : next_cycle q ((cur, o) :: rest) = Some n).
+        { simpl. unfold touchesb. apply memb_false in Nq. rewrite Nq. exact Hq. }
+        destruct (D5 _ _ NC) as [(x0 & s0 & Hx0 & R)|[D|(x0 & s0 & Hx0 & R)]]; auto.
+        * left. exists x0, s0. split; auto. apply in_or_app; auto.
+        * right; right. exists x0, s0. split; auto. apply in_or_app; auto.
+    - apply (J1_into bs bs1 (nextid st1) NewPred); auto. }
+  destruct (block_update_spec _ _ _ BU) as (sb2 & bs2 & G2 & -> & Hspec). simpl in G2, Hspec.
+  assert (sb2 = N).
+  { apply getb_In in G2 as [G2a G2b]. apply (nodup_ids_eq bs1 sb2 N Hnd1); auto.
+    unfold bs1. apply in_or_app; right; left; auto. }
+  subst sb2.
+  apply linv_split. split.
+  - apply (dprops_bog rest _ bs2 DP3). simpl. eapply bspec_bog; eauto.
+  - simpl. apply (J2_after_block bs bs1 bs2 (nextid st1) N (act st1) NewPred); auto.
+    + unfold bs1. apply in_or_app; right; left; auto.
+    + intros x1 Hx1 Hn. apply in_app_or in Hx1 as [Hx1|[<-|[]]]; auto. exfalso. apply Hn. reflexivity.
+    + intros S HS IS. exfalso. specialize (i_lt0 S HS). lia.
+    + intros p (P & sa & e & HP & IP & Hsa & Ee & Hq). exists P, (sq sa). repeat split; auto.
+      * apply in_map; auto.
+      * unfold N, barrier_bin, bqudits. simpl. rewrite map_map. simpl. rewrite map_id. exact Hq.
+    + intros x1 Hx1 Act Hn. destruct I2 as [_ _ _ _ i_dyn3 _ _ _ _ _ _ _].
+      simpl in i_dyn3. destruct (i_dyn3 x1 Hx1) as [D1 _]. simpl in D1.
+      apply any_active_ex in Act as [q Aq]. eapply nth_some_In. apply (D1 q Aq). Qed.
+
+
+(* ---------- one gate ---------- *)
+Lemma next_here q cur o rest n : In q (oloc o) -> next_cycle q ((cur, o) :: rest) = Some n -> n = cur.
+Proof. simpl. unfold touchesb. intros Hq. apply memb_In in Hq. rewrite Hq. congruence. Qed.
+
+Lemma step_gate_linv pre cur o rest hint st st' :
+  c = pre ++ (cur, o) :: rest -> okind o = KGate ->
+  inv pre st -> linv ((cur, o) :: rest) st ->
+  step_gate k ncyc cur o hint st = inl st' -> linv rest st'.
+Proof. intros Hc Hk I L H. unfold step_gate in H.
+  destruct (ctx_facts c Hord pre cur o rest Hc) as [Hp Hs].
+  assert (Hn : forall q n, In q (oloc o) -> next_cycle q ((cur, o) :: rest) = Some n -> n = cur)
+    by (intros q n; apply next_here).
+  destruct (same_set hint (overlap_ids st (oloc o))) eqn:SS; simpl in H; [|discriminate].
+  apply same_set_incl in SS as (SS1 & _ & _).
+  destruct (flags (bins st) (oloc o) k hint) as [fl|] eqn:F; [|discriminate].
+  destruct (flags_spec _ _ _ _ _ F) as [F1 F2].
+  destruct (close_where snd (oloc o) cur fl st) as [st1|] eqn:C1; [|discriminate].
+  destruct (close_where_inv k ncyc c Hord Hcyc Hnd Hne snd pre ((cur, o) :: rest) (oloc o) cur fl st st1 Hc Hp Hs I C1) as [I1 G1].
+  assert (L1 : linv ((cur, o) :: rest) st1) by (exact (close_where_linv snd pre _ _ _ _ _ _ Hc Hp Hs Hn I L C1)).
+  match type of H with (match ?e0 with inl _ => _ | inr _ => _ end) = _ =>
+    destruct e0 as [[st2 sel]|] eqn:SEL; [|discriminate] end.
+  destruct (getb sel (bins st2)) as [sb|] eqn:G2; [|discriminate].
+  destruct (set_active sel (oloc o) (act st2)) as [a'|] eqn:SA; [|discriminate].
+  match type of H with (match block_update ?s0 ?x0 with inl _ => _ | inr _ => _ end) = _ =>
+    destruct (block_update s0 x0) as [st4|] eqn:BU; [|discriminate] end.
+  assert (R : inv (pre ++ [(cur, o)])
+     (mkSt (putb (add_op cur o sb) (bins st2)) a' (dl st2) (pend st2) (nclosed st2) (out st2) (nextid st2)) /\
+     linv rest st4).
+  { destruct (map fst (filter snd fl)) as [|a0 adm'] eqn:ADM.
+    - destruct (forallb (fun q => is_none (nth q (act st1) None)) (oloc o)); [|discriminate].
+      inversion SEL; subst st2 sel. clear SEL.
+      pose proof (new_bin_inv k c pre st1 I1) as I2.
+      pose proof (new_bin_linv pre _ st1 I1 L1) as L2.
+      assert (Gn : getb (nextid st1) (bins st1 ++ [mkBin (nextid st1) [] [] [] false]) = Some (mkBin (nextid st1) [] [] [] false)).
+      { rewrite getb_app_notin.
+        - simpl. rewrite Nat.eqb_refl. reflexivity.
+        - intros Hin. apply in_map_iff in Hin as (b & E0 & Hb). destruct I1 as [_ i_lt0 _ _ _ _ _ _ _ _ _ _]. specialize (i_lt0 b Hb). lia. }
+      simpl in G2. rewrite Gn in G2. inversion G2; subst sb.
+      assert (I3 : inv (pre ++ [(cur, o)])
+         (mkSt (putb (add_op cur o (mkBin (nextid st1) [] [] [] false)) (bins st1 ++ [mkBin (nextid st1) [] [] [] false])) a' (dl st1) (pend st1) (nclosed st1) (out st1) (S (nextid st1)))).
+      { refine (add_step_inv k c Hord Hnd Hne pre cur o rest _ _ _ a' Hc I2 Gn Hk _ _ _ _ SA).
+        + reflexivity.
+        + simpl. intros q _ [].
+        + simpl. intros Hin. destruct I1 as [_ _ i_plt0 _ _ _ _ _ _ _ _ _]. specialize (i_plt0 _ Hin). lia.
+        + left. split; reflexivity. }
+      split; [exact I3|].
+      refine (add_block_linv pre cur o rest _ _ _ a' st4 Hc I2 L2 Gn _ _ _ SA I3 BU).
+      + simpl. intros q _ [].
+      + simpl. intros q _ [].
+      + left. reflexivity.
+    - set (adm := a0 :: adm') in *.
+      set (sel0 := match select_subset (bins st1) (oloc o) adm with Some id => id | None => a0 end) in *.
+      destruct (close_where (fun x => Nat.eqb (fst x) sel0) (oloc o) cur (filter snd fl) st1) as [st2'|] eqn:C2; [|discriminate].
+      inversion SEL; subst st2' sel. clear SEL.
+      destruct (close_where_inv k ncyc c Hord Hcyc Hnd Hne _ pre ((cur, o) :: rest) (oloc o) cur _ st1 st2 Hc Hp Hs I1 C2) as [I2 G2'].
+      assert (L2 : linv ((cur, o) :: rest) st2) by (exact (close_where_linv _ pre _ _ _ _ _ _ Hc Hp Hs Hn I1 L1 C2)).
+      assert (Hsel : In sel0 adm).
+      { unfold sel0. destruct (select_subset (bins st1) (oloc o) adm) eqn:SSb; [eapply select_subset_In; eauto| left; auto]. }
+      rewrite <- ADM in Hsel. apply in_map_iff in Hsel as (x & Ex & Hx).
+      apply filter_In in Hx as [Hx Sx]. destruct (F2 x Hx) as (b0 & Gb0 & Eb0). rewrite Ex in Gb0.
+      assert (Gst2 : getb sel0 (bins st2) = Some b0).
+      { rewrite G2', G1; auto.
+        - intros y Hy Ky Ey. destruct (F2 y Hy) as (by0 & Gy & Fy). rewrite Ey, Gb0 in Gy. inversion Gy; subst by0.
+          rewrite Ky in Fy. rewrite <- Eb0 in Fy. congruence.
+        - intros y Hy Ky Ey. apply Nat.eqb_neq in Ky. auto. }
+      rewrite Gst2 in G2. inversion G2; subst sb. clear G2.
+      rewrite Sx in Eb0. symmetry in Eb0. unfold can_accommodate in Eb0.
+      apply andb_true_iff in Eb0 as [CA1 CA2]. apply andb_true_iff in CA2 as [CA2 CA3].
+      assert (Hact : exists q0, is_active b0 q0 = true).
+      { assert (In sel0 hint) by (rewrite <- F1, <- Ex; apply in_map; auto).
+        apply SS1 in H0. apply overlap_ids_spec in H0 as (q0 & Hq0 & Aq0).
+        destruct I as [i_nd0 _ _ _ _ i_act0 _ _ _ _ _ _]. destruct (i_act0 q0 sel0 Aq0) as (b' & Hb' & Eb' & Ab').
+        apply getb_In in Gb0 as [Gb0 Gb0']. assert (b' = b0) by (eapply nodup_ids_eq; eauto; congruence).
+        subst b'. eauto. }
+      destruct Hact as [q0 Aq0].
+      assert (Hin2 : In b0 (bins st2)) by (apply getb_In in Gst2; tauto).
+      assert (HC1 : forall q, In q (oloc o) -> In q (bqudits b0) -> is_active b0 q = true).
+      { intros q Hq Hqb. rewrite forallb_forall in CA2. specialize (CA2 q Hq).
+        apply orb_true_iff in CA2 as [CA2|CA2]; auto.
+        apply negb_true_iff in CA2. apply memb_false in CA2. contradiction. }
+      assert (I3 : inv (pre ++ [(cur, o)])
+         (mkSt (putb (add_op cur o b0) (bins st2)) a' (dl st2) (pend st2) (nclosed st2) (out st2) (nextid st2))).
+      { refine (add_step_inv k c Hord Hnd Hne pre cur o rest _ _ _ a' Hc I2 Gst2 Hk _ HC1 _ _ SA).
+        + destruct I2 as [_ _ _ i_static0 _ _ _ _ _ _ _ _]. destruct (i_static0 b0 Hin2) as (_ & _ & _ & _ & S5 & _).
+          destruct (bbar b0) eqn:Bb; auto. destruct (S5 eq_refl) as [_ S5b].
+          apply is_active_any in Aq0. congruence.
+        + intros Hp2. destruct I2 as [_ _ _ _ _ _ i_pend0 _ _ _ _ _]. apply is_active_any in Aq0.
+          assert (any_active b0 = false); [|congruence]. eapply (i_pend0 sel0 b0); eauto.
+          apply getb_In in Gst2; tauto.
+        + right. apply Nat.leb_le. exact CA3. }
+      split; [exact I3|].
+      refine (add_block_linv pre cur o rest _ _ _ a' st4 Hc I2 L2 Gst2 HC1 _ _ SA I3 BU).
+      + intros q Hq Hqb. apply negb_true_iff in CA1.
+        destruct (is_active b0 q) eqn:Aq; auto. exfalso.
+        assert (existsb (fun q1 => memb q1 (bblocked b0) && negb (is_active b0 q1)) (oloc o) = true); [|congruence].
+        apply existsb_exists. exists q. split; auto. apply memb_In in Hqb. rewrite Hqb, Aq. reflexivity.
+      + right. eapply is_active_any; eauto. }
+  destruct R as [I3 L4].
+  assert (I4 : inv (pre ++ [(cur, o)]) st4) by (eapply block_update_inv; eauto).
+  match type of H with (if ?b0 then _ else _) = _ => destruct b0 end.
+  - unfold process_pending_bins in H.
+    destruct (process_pending (S (length (pend st4))) ncyc st4) as [st5|] eqn:PP; [|discriminate].
+    injection H as <-. apply linv_set_nclosed.
+    assert (Hc' : c = (pre ++ [(cur, o)]) ++ rest) by (rewrite <- app_assoc; exact Hc).
+    apply (process_pending_linv (pre ++ [(cur, o)]) rest _ _ _ Hc' I4 L4 PP).
+  - injection H as <-. exact L4.
+Qed.
 
 End Live.
